@@ -110,6 +110,7 @@ static long g_evals = 0;
 static long g_mode[M_COUNT][O_COUNT];
 static long g_stmt[2][O_COUNT];        // [statements parsed > 0][outcome]
 static long g_kind[2];                 // string source / file source
+static long g_tokens = 0;              // inputs whose tokens were loaded (tokenizer + preprocessor without error)
 static long g_nul = 0, g_empty = 0, g_incl = 0, g_diag = 0, g_launcher = 0, g_nest = 0, g_unary = 0, g_macro = 0;
 static long g_known[K_COUNT];
 static bool g_knownOn[K_COUNT];
@@ -149,6 +150,7 @@ static void dumpStats() {
   for (int s = 0; s < 2; ++s)
     for (int o = 0; o < O_COUNT; ++o)
       if (g_stmt[s][o]) fprintf(f, ",\"fuzz:%s:%s\":%ld", s ? "statements-parsed>0" : "statements-parsed=0", O_NAMES[o], g_stmt[s][o]);
+  if (g_tokens) fprintf(f, ",\"fuzz:tokens-loaded(tokenizer+preprocessor ok, >0 tokens)\":%ld", g_tokens);
   if (g_kind[0]) fprintf(f, ",\"fuzz:string-source(parseSource)\":%ld", g_kind[0]);
   if (g_kind[1]) fprintf(f, ",\"fuzz:file-source(parseFile)\":%ld", g_kind[1]);
   if (g_launcher) fprintf(f, ",\"fuzz:accepted-with-launcher-source-printed\":%ld", g_launcher);
@@ -460,7 +462,7 @@ extern "C" int LLVMFuzzerTestOneInput(const uint8_t *data, size_t size) {
   g_diagChunks = 0;
   int outcome = O_REJECT;
   int statements = 0;
-  bool launcherPrinted = false;
+  bool launcherPrinted = false, tokensLoaded = false;
   parser_t *parser = NULL;
   try {
     parser = makeParser(mode);
@@ -477,6 +479,7 @@ extern "C" int LLVMFuzzerTestOneInput(const uint8_t *data, size_t size) {
       parseExact(*parser, buf);
     }
     statements = parser->root.size();
+    tokensLoaded = !parser->tokenContext.tokens.empty();
     if (parser->succeeded()) {
       outcome = O_ACCEPT;
       std::string device = parser->toString();
@@ -506,6 +509,7 @@ extern "C" int LLVMFuzzerTestOneInput(const uint8_t *data, size_t size) {
   ++g_stmt[statements > 0 ? 1 : 0][outcome];
   ++g_kind[kind];
   if (launcherPrinted) ++g_launcher;
+  if (tokensLoaded) ++g_tokens;
   if (g_diagChunks) ++g_diag;
   if (statements > 0) ntInsert(fnv(data, size));
   return 0;
